@@ -186,6 +186,10 @@ func c18Run(rc *RunCtx) *Violation {
 				if mi == nil || mi.Data == nil {
 					continue
 				}
+				if !mi.OK && string(mi.Text) == "[resent] " {
+					fail("transmit.unknown", fmt.Sprintf("%s put a message on the wire that is marked as resent but carries no text (and a damaged TLV part): what was to be sent again has been lost", p.Name), map[string]string{"kind": "resent-empty"})
+					return
+				}
 				if !mi.OK {
 					// the shadow cannot decode this one (it lost track of the party, e.g. after a
 					// DH-Commit collision): which texts it carried is unknown, so everything given
@@ -201,6 +205,10 @@ func c18Run(rc *RunCtx) *Violation {
 				}
 			}
 			if len(carried) == 0 {
+				if resent {
+					fail("transmit.unknown", fmt.Sprintf("%s put a message on the wire that is marked as resent but carries no text: what was to be sent again has been lost (message text %q)", p.Name, mi2text(o, om.raw)), map[string]string{"kind": "resent-empty"})
+					return
+				}
 				continue
 			}
 			var t *c18Text
@@ -367,6 +375,14 @@ func c18Run(rc *RunCtx) *Violation {
 				rc.Probe("state_" + st)
 			}
 		}
+	}
+	return nil
+}
+
+// mi2text returns the decrypted text of an emitted data message as the shadow read it.
+func mi2text(o *Omni, raw []byte) []byte {
+	if mi := o.Find(raw); mi != nil {
+		return mi.Text
 	}
 	return nil
 }
